@@ -181,12 +181,12 @@ func stEvalAST(c *core.Ctx, cs stCase) []core.Finding {
 func stLayouts(thorough bool) []model.Layout {
 	var out []model.Layout
 	for _, multi := range []int{0, 1, 2} {
-		for _, q := range []bool{false, true} {
+		for _, q := range []int{0, 1, 2, 4} {
 			out = append(out, model.Layout{NL: "\n", Multi: multi, Quote: q})
 		}
 	}
 	if thorough {
-		out = append(out, model.Layout{NL: "\r\n", Multi: 0, Pad: 1}, model.Layout{NL: "\n", Multi: 2, Quote: true, Pad: 2, LeadBlank: 1, TailBlank: 2})
+		out = append(out, model.Layout{NL: "\r\n", Multi: 0, Pad: 1}, model.Layout{NL: "\n", Multi: 2, Quote: 3, Pad: 2, LeadBlank: 1, TailBlank: 2})
 	}
 	return out
 }
